@@ -26,6 +26,7 @@ RULE = ("rle leg: rlencode(a, chunksize=c) for EVERY array over {0,1,2} of lengt
         "reference state (dict-sum merge, block-aggregate coarsening); big leg (thorough): three dense-upper coolers with 1450 bins "
         "(1,051,975 pixels) whose row runs straddle / start at / end at pixel row 1,000,000. Non-trivial: the transition writes a "
         "collection with >=2 pixels. Distinct by construction (state dedup by canonical reference state).")
+EXTRA_LEGS = 'alltables: EVERY table of BT(3,4,{1,2,3}) in two name flavours created and coarsened by 2, V on both; narrowids: int8/uint8/int16/uint16 id columns with reversed chunks and sorting requested (one- and two-pass); one 1e6-record boundary cooler in the quick tier.'
 BOUNDS = {"quick": "hist depth 2; one 1,051,975-pixel cooler whose row run straddles record 1e6; narrow id dtypes with sorting requested; every table of BT(3,4,W) in two name flavours created and coarsened by 2; one 6000-contig table (integer chromosome column) through each of 7 producing routes; coarsen and zoomify with nproc=2 under every completion order of each pool batch (deviation bound 1)", "thorough": "hist depth 3 + every table of BT(3,5,W) + the three 1e6-row boundary coolers + the 6000-contig table; pool orders with deviation bound 2"}
 ASSUMPTIONS = ["V is written against docs/schema_v3.rst with raw h5py only", "two files with the same reference state have the same futures under the alphabet"]
 EXPECT_CLASSES = {"*": ["alltables:fixed", "alltables:variable", "manycontigs:integer-chromosome-column", "rle", "index", "op:create", "op:create-unordered", "op:merge", "op:coarsen", "op:zoomify", "op:scool", "op:load", "op:cload"]}
